@@ -23,6 +23,10 @@ Decides from the source:
       e = (cos, sin) of the azimuth relative to the polarisation and projected
       on e and on e_perp = (sin, -cos):  l = P e.(A e),  r = P e_perp.(A e) --
       the layout every theory's raw_scat_matrs uses for S.E;
+  V7  interpolating the radial integrals: every Chebyshev window has the
+      configured width (breakpoints = window_size * consecutive integers) and
+      the windows cover [min krho, max krho]; the interpolated function is
+      the directly evaluated integral of the same order n;
 Not decided: numerical convergence of Lens(Mie) to MieLens, interpolation on /
 off agreement.
 """
@@ -75,6 +79,12 @@ def run(check, prog):
     phases(check, prog, canon)
     amplitude_matrix(check, prog)
     lens_wiring(check, prog)
+    interpolation_windows(check, prog)
+    # a second calculation with other options must not see values remembered
+    # from the first (MieLens == Lens(Mie) for every acceptance angle, whatever
+    # was computed before): shared with C01
+    from . import c01
+    c01.f5_state(check, prog)
 
 
 def numexpr_agreement(check, prog, canon):
@@ -545,3 +555,66 @@ def lens_wiring(check, prog):
                   'prefactor(krho, phi, kz of the positions); scattering matrix of '
                   '(scatterer, wavevector, index); both integrands get (prefactor, '
                   'polarisation angle, S1..S4 in order)', prog.loc(q, fd))
+
+
+def interpolation_windows(check, prog):
+    MC = 'holopy.scattering.theory.mielensfunctions.MieLensCalculator'
+    q = MC + '._interpolate_and_eval_mielens_i_n'
+    fd = prog.func(q)
+    loc = prog.loc(q, fd)
+    me, krho, n_ = [sym(a.arg) for a in fd.args.args[:3]]
+    it = Interp(prog, max_depth=1, inline_new=False)
+    res = it.analyze(q)
+    pc = [c for c in it.calls if c['name'].endswith('PiecewiseChebyshevApproximant')]
+    ok = len(pc) == 1
+    detail = '%d approximants built' % len(pc)
+    if ok:
+        fdp = prog.func('holopy.scattering.theory.mielensfunctions.'
+                        'PiecewiseChebyshevApproximant.__init__')
+        nm = [a.arg for a in fdp.args.args][1:]
+        b = dict(zip(nm, pc[0]['args']))
+        b.update(dict(pc[0]['kwargs']))
+        ws = intern(('attr', me, 'interpolator_window_size'))
+        bp = b.get('window_breakpoints')
+        c0 = Canon()
+        ok = bp is not None and bp[0] == 'bin' and bp[1] == '*' and ws in (bp[2], bp[3])
+        detail = 'breakpoints %s' % (show(bp)[:160] if bp else None)
+        if ok:
+            ar = bp[3] if bp[2] == ws else bp[2]
+            ok = ar[0] == 'call' and ar[1] == 'numpy.arange' and len(ar[2]) == 2 and \
+                not ar[3]
+            if ok:
+                lo, hi = ar[2]
+                kmin = intern(('call', ('attr', krho, 'min'), (), ()))
+                kmax = intern(('call', ('attr', krho, 'max'), (), ()))
+                oklo = lo == ('call', 'numpy.floor', (('bin', '/', kmin, ws),), ())
+                # hi = ceil(max/ws [+ eps]) + k with k >= 1: the last breakpoint lies
+                # beyond the largest krho
+                okhi = hi[0] == 'bin' and hi[1] == '+' and hi[3][0] == 'num' and \
+                    hi[3][1] >= 1 and hi[2][0] == 'call' and hi[2][1] == 'numpy.ceil' and \
+                    any(x == ('bin', '/', kmax, ws) for x in subterms(hi[2]))
+                ok = oklo and okhi
+        okd = b.get('degree') == ('attr', me, 'interpolator_degree')
+        fn = b.get('function')
+        okf = fn is not None and fn[0] == 'closure'
+        if okf:
+            node_c, cenv, cframe = it.closures[fn[1]]
+            from hpstatic.interp import Frame
+            fr = Frame(cframe.module, cframe.owner, cframe.selfcls, cframe.selfname, 0,
+                       q + '.<f>')
+            xx = sym('X')
+            val = it.inline_closure(node_c, cenv, cframe, [xx], {}, fr, ())
+            okf = val == ('call', ('attr', me, '_direct_eval_mielens_i_n'), (xx,),
+                          (('n', n_),))
+        ok = ok and okd and okf
+    check.require(ok, 'V7-interpolation-windows', 'MieLensCalculator interpolation',
+                  'windows of width interpolator_window_size from floor(min krho / w) '
+                  'to beyond max krho; degree = interpolator_degree; the function '
+                  'interpolated is the direct evaluation of the same order', loc,
+                  fail_detail=detail + ': windows wider than the configured size are '
+                  'not resolved by the fixed-degree interpolant, so interpolated and '
+                  'direct evaluation differ')
+    v = res.ret
+    ok2 = v[0] == 'call' and v[1][0] == 'new' and v[2] == (krho,)
+    check.require(ok2, 'V7-interpolation-windows', 'MieLensCalculator interpolation call',
+                  'the approximant is evaluated at the requested krho', loc)
